@@ -23,6 +23,11 @@ var valueRe = regexp.MustCompile(`\(\s*(\S.*?)\s+(\(- \d+\)|-?\d+|true|false)\s*
 // getValues re-solves the obligation with the full context and asks for the values of terms.
 func (e *Engine) getValues(o *Oblig, terms []string, pins ...string) (map[string]string, bool) {
 	vc := e.sliceVC(o, true, terms)
+	for _, rf := range e.replayFacts {
+		if strings.Contains(vc, "(declare-const "+rf[0]+" ") {
+			pins = append(pins, rf[1])
+		}
+	}
 	if len(pins) > 0 {
 		// pin the values of an earlier model so that both rounds describe the same counterexample
 		vc = strings.Replace(vc, "(check-sat)", strings.Join(pins, "\n")+"\n(check-sat)", 1)
